@@ -48,8 +48,8 @@ fn c16_zone_local_total() {
     }
 }
 
-// @ob tier=thorough timeout=3600 mem=20
-// @desc the TZif reader is total on short inputs: for EVERY byte string of up to 56 bytes (any magic, version, six header counts, body) `TimeZone::from_tz_data` returns Ok or Err without panicking, indexing out of bounds, overflowing in the count arithmetic or allocating more than the input holds; and a zone it accepts answers an offset query
+// @ob tier=extra timeout=7200 mem=24
+// @desc (did not finish within 3600 s on this machine: 10 GB and growing in propositional reduction) the TZif reader is total on short inputs: for EVERY byte string of up to 56 bytes (any magic, version, six header counts, body) `TimeZone::from_tz_data` returns Ok or Err without panicking, indexing out of bounds, overflowing in the count arithmetic or allocating more than the input holds; and a zone it accepts answers an offset query
 // @bounds all byte strings of length <= 56 (covers the complete version-1 layout with one type and up to five name bytes; version 2/3 inputs of this length end in an error after the first block); loops unwound 9
 // @funcs parser::parse, State::new, Header::new, Cursor::{read_exact, read_be_u32}, TimeZone::new / validate, LocalTimeType::new
 // @outside longer inputs (more transitions / types, second header, footer)
